@@ -45,6 +45,11 @@ def bounds(ctx):
          dict(Adaptives=[True, False], Screenings=[False], Windows=[1], RetrySet=[1], MulExps=[1], Deltas=[0, 1024],
               MaxSteps=4, MaxRefusals=2), INV, PROP, ["Begin", "Test", "Answer", "Finish"]),
     ]
+    models.append(
+        # thermalisation: the induced potential (values) carries over the restart, the velocity restarts every step
+        ("StepCtl[C13 thermalisation with screening]",
+         dict(scr, Thermals=[True], MaxThermal=2, MaxIters=[1, 2], TolExps=[7], AlphaExps=[0, 1], BetaQs=[2, 4], Kicks=[1, 2, 3],
+              MaxSteps=2), INV, PROP, ACTIONS + ["StageRestart"]))
     small = dict(scr, MaxIters=[1, 2], TolExps=[7], AlphaExps=[0, 1], BetaQs=[2, 4], Kicks=[1, 2, 3], MaxSteps=2)
     canaries = [("MTestPrev", small, "ConvergedStops"), ("MTestPrev", small, "AcceptedStepConverged"),
                 ("MReturnUnconverged", small, "AcceptedStepConverged"), ("MReturnUnconverged", small, "NonConvergenceRaises")]
@@ -56,9 +61,12 @@ def bounds(ctx):
                                          Deltas=[0, 1024], MaxIters=[1], TolExps=[7], AlphaExps=[0], BetaQs=[2], Kicks=[1, 3],
                                          MaxSteps=2 if q else 3, MaxRefusals=2)),
         ("no screening", dict(Adaptives=[True, False], Screenings=[False], Deltas=[0, 1024], MaxSteps=3, MaxRefusals=1)),
+        ("thermalisation with screening", dict(scr, Thermals=[True], MaxThermal=2, MaxIters=[1], TolExps=[7], AlphaExps=[0, 1],
+                                               BetaQs=[2, 4], Kicks=[1, 2, 3], MaxSteps=2)),
         # adaptive window rule over steps that take several screening iterations (delta once per solve step)
         ("adaptive window 2 with screening", dict(Adaptives=[True], Screenings=[True], Windows=[2], RetrySet=[0], MulExps=[1],
-                                                  Deltas=[0, 1024, 16384], MaxIters=[1], Kicks=[1, 3], MaxSteps=4, MaxRefusals=0)),
+                                                  Deltas=[0, 1024] if q else [0, 1024, 16384], MaxIters=[1], Kicks=[1, 3], MaxSteps=4,
+                                                  MaxRefusals=0)),
     ]
     return models, canaries, exports
 
@@ -78,6 +86,8 @@ def natural_matrix(ctx):
         # the same micron-size device described in metres: coordinates ~1e-6 in the kernel (no absolute length scale)
         dict(dev="bar", length_units="m", scale=1e-6, screening=True, tol=1e-3, dt_init=d6, dt_max=0.1, current=4.0, field=0.5,
              solve_time=0.1, k=2),
+        # thermalisation before the recorded stage: only recorded frames are stored, the induced potential carries over
+        dict(dev="bar", screening=True, tol=1e-3, dt_init=d6, dt_max=0.1, current=4.0, field=0.5, skip_time=0.08, solve_time=0.1, k=2),
         # iteration limit hit -> RuntimeError
         dict(dev="bar", screening=True, tol=1e-4, maxiter=2, dt_init=d6, dt_max=0.1, current=4.0, field=0.5, solve_time=0.3, k=3),
         # screening disabled: induced potential identically zero in every frame
